@@ -320,6 +320,56 @@ REQS_CALL = [
     ('assist', 'from mcall import y\ny.', (2, 2)),
     ('location', 'from mcall import g\ng().foo\n', (2, 7)),
 ]
+# evaluations cut short by a recursion guard whose truncated result is then memoised (known findings F-guardmemo): which
+# of two mutually dependent values is complete depends on which one was asked for first
+MGUARD1 = '''\
+class Registry:
+    def __init__(self):
+        self.items = []
+    def register(self, f):
+        return f
+registry = Registry()
+class Handler:
+    @registry.register
+    def handle(self):
+        self.done = True
+registry.extra = 1
+'''
+REQS_GUARD1 = [('assist', 'import mguard1\nmguard1.Handler().', (2, 18)), ('assist', 'import mguard1\nmguard1.registry.', (2, 17)),
+               ('location', 'import mguard1\nmguard1.registry.extra\n', (2, 22))]
+MGUARD2 = '''\
+class A1:
+    ya1 = 1
+class B1:
+    xb1 = 1
+class A0:
+    ya = 1
+    other = B1()
+class B0:
+    xb = 2
+    other = A1()
+class W:
+    def __init__(self):
+        self.cur = A0()
+        self.prev = B0()
+    def swap(self):
+        self.cur = self.prev.other
+        self.prev = self.cur.other
+w = W()
+'''
+REQS_GUARD2 = [('assist', 'import mguard2\nmguard2.w.cur.', (2, 14)), ('assist', 'import mguard2\nmguard2.w.prev.', (2, 15))]
+MGUARD3 = '''\
+class A:
+    x = 1
+while cond():
+    class B(A):
+        y = 2
+    class A(B):
+        z = 3
+class D(A):
+    pass
+'''
+REQS_GUARD3 = [('assist', 'import mguard3\nmguard3.D.', (2, 10)), ('assist', 'import mguard3\nmguard3.B.', (2, 10)), ('location', 'import mguard3\nmguard3.B.z\n', (2, 11))]
 CYC_A = 'from cycb import *\nclass A(object):\n    def am(self): pass\n'
 CYC_B = 'from cyca import *\nfrom cycleaf import *\nclass B(object):\n    def bm(self): pass\n'
 CYC_LEAF = 'class Leaf(object):\n    def lm(self): pass\n'
@@ -346,13 +396,15 @@ def project_search(part, which='loop'):
     import tempfile
     import shutil
     out = []
-    REQS = {'loop': REQS_LOOP, 'cls': REQS_CLS, 'assign': REQS_ASSIGN, 'cycle': REQS_CYCLE, 'call': REQS_CALL, 'cycle3': REQS_CYCLE3}[which]
+    REQS = {'loop': REQS_LOOP, 'cls': REQS_CLS, 'assign': REQS_ASSIGN, 'cycle': REQS_CYCLE, 'call': REQS_CALL, 'cycle3': REQS_CYCLE3, 'guard1': REQS_GUARD1, 'guard2': REQS_GUARD2, 'guard3': REQS_GUARD3}[which]
     root = tempfile.mkdtemp(prefix='c04proj')
     try:
         open(os.path.join(root, 'mloop.py'), 'w').write(MLOOP)
         open(os.path.join(root, 'mcls.py'), 'w').write(MCLS)
         open(os.path.join(root, 'massign.py'), 'w').write(MASSIGN)
         open(os.path.join(root, 'mcall.py'), 'w').write(MCALL)
+        for k, v in (('mguard1', MGUARD1), ('mguard2', MGUARD2), ('mguard3', MGUARD3)):
+            open(os.path.join(root, k + '.py'), 'w').write(v)
         open(os.path.join(root, 'cyca.py'), 'w').write(CYC_A)
         open(os.path.join(root, 'cycb.py'), 'w').write(CYC_B)
         open(os.path.join(root, 'cycleaf.py'), 'w').write(CYC_LEAF)
@@ -587,7 +639,7 @@ def run(ctx):
     units += [(unit_progs, (ctx.tier, lo, min(len(sp), lo + 2))) for lo in range(cheap, len(sp), 2)]
     units += [(unit_text, (t, 2 if ctx.quick else 3)) for t in CYCLIC]
     units += [(unit_file, f) for f in sorted(set(repo_files(ctx.tier)))]
-    units += [(unit_project, 'loop'), (unit_project, 'cls'), (unit_project, 'assign'), (unit_project, 'cycle'), (unit_project, 'call'), (unit_project, 'cycle3')]
+    units += [(unit_project, 'loop'), (unit_project, 'cls'), (unit_project, 'assign'), (unit_project, 'cycle'), (unit_project, 'call'), (unit_project, 'cycle3'), (unit_project, 'guard1'), (unit_project, 'guard2'), (unit_project, 'guard3')]
     ctx.pmap(_dispatch, ctx.shuffled(units), chunksize=1)
     c = ctx.counters
     ex = sp[len(sp) // 2]
